@@ -352,6 +352,15 @@ func TestCheck(t *testing.T) {
 	r := mc.New("C17", "exploration")
 	cs := configs()
 	if f := mc.ReplayFile(); f != "" {
+		var dr dispatchReplay
+		if err := mc.LoadReplay(f, &dr); err == nil && dr.Family == "dispatcher" {
+			fail := dispatchCase(t, dr.Attempts, dr.Order)
+			fmt.Printf("dispatcher attempts=%d order=%s -> %q\n", dr.Attempts, dr.Order, fail)
+			if fail != "" {
+				t.Fail()
+			}
+			return
+		}
 		var rp mc.BFSReplay
 		if err := mc.LoadReplay(f, &rp); err != nil {
 			t.Fatal(err)
@@ -374,7 +383,7 @@ func TestCheck(t *testing.T) {
 		}
 		return
 	}
-	r.Rule = fmt.Sprintf("explicit-state BFS over histories of provider statuses {200,404,500,503} of two interleaved sequences X,Y plus clock steps, for %d configurations (policy|flows mode x attempts 1-3 x cool-down 0-1 x multiplier 1-2, plus policy mode started from a state with 1100 other sequences in the middle of their retries); clock steps 1 s, 5 min (policy: beyond the state TTL), 11 min (flows: beyond the retry-request timeout); depth attempts+5 (thorough: 2*attempts+6); the harness plays the client protocol; every transition runs the real RetryPlugin / a real Stream with the Retry processor; distinct = reference states reached", len(cs))
+	r.Rule = fmt.Sprintf("explicit-state BFS over histories of provider statuses {200,404,500,503} of two interleaved sequences X,Y plus clock steps, for %d configurations (policy|flows mode x attempts 1-3 x cool-down 0-1 x multiplier 1-2, plus policy mode started from a state with 1100 other sequences in the middle of their retries); clock steps 1 s, 5 min (policy: beyond the state TTL), 11 min (flows: beyond the retry-request timeout); depth attempts+5 (thorough: 2*attempts+6); the harness plays the client protocol; every transition runs the real RetryPlugin / a real Stream with the Retry processor; plus, through the real runner.DispatchOnRequest, a fixed-response remedy answering every transaction with 503 followed by the retry remedy, for attempts 1-3 and every interleaving of two sequences; distinct = reference states reached", len(cs))
 	r.Assume("flows mode: retry condition implemented by a Filter(status_code_range 500-599) processor in front of Retry",
 		"policy mode: the retry state may expire after cool-down+31 s; an early failure after such a gap is not flagged")
 	if r.Parallel(t, 16) {
@@ -407,6 +416,9 @@ func TestCheck(t *testing.T) {
 		r.NonTrivial(fmt.Sprintf("%s states=%d", c, st))
 		r.Outcome(fmt.Sprintf("states=%d", st))
 		r.Sample(map[string]any{"config": c.String(), "states": st, "transitions": tr})
+	}
+	if sh, n := r.Shard(); sh == 2%n {
+		dispatchFamily(t, r)
 	}
 	r.Finish(t)
 }
